@@ -96,8 +96,8 @@ def main():
         'setup_cmd': './setup.sh',
         'hooks': {
             'guard': 'PYIGA_VERIF',
-            'enable': 'checks stage /repo\'s working tree into a scratch copy, build it there and run workers with PYIGA_VERIF=1 in the environment; the only guarded hook is PYIGA_VERIF_COMPILE_FAULT in pyiga/compile.py',
-            'baseline_off_cmd': 'cd /repo && env -u PYIGA_VERIF -u PYIGA_VERIF_COMPILE_FAULT /venv/bin/python -m pytest -ra -q -p no:cacheprovider --timeout=900 --continue-on-collection-errors',
+            'enable': 'checks stage /repo\'s working tree into a scratch copy, build it there and run workers with PYIGA_VERIF=1 in the environment; the only guarded hook is _verif_stage() in pyiga/compile.py (PYIGA_VERIF_COMPILE_FAULT=<stage> kills the compiling process at that stage, PYIGA_VERIF_COMPILE_TRACE=<file> logs the stages)',
+            'baseline_off_cmd': 'cd /repo && env -u PYIGA_VERIF -u PYIGA_VERIF_COMPILE_FAULT -u PYIGA_VERIF_COMPILE_TRACE /venv/bin/python -m pytest -ra -q -p no:cacheprovider --timeout=900 --continue-on-collection-errors',
             'source_commits': hook_commits,
             'add_only': True,
         },
